@@ -1,6 +1,7 @@
 """Shared harness for the generator properties (C01-C04): joint-degree-sequence generator, motif
 menu with recording build / naming callbacks, algorithm construction through every path, and the
 conservation / column oracles that work purely from the call log."""
+import numbers
 import copy
 from collections import Counter
 from itertools import combinations
@@ -150,8 +151,14 @@ def make_fast_config(rng, allow_empty=False, distinct=True):
     motifs = [rng.choice(menu) for _ in range(T)]
     if allow_empty and rng.random() < 0.08:
         motifs[rng.randrange(T)] = ("empty", 1)
+    names = ["t%d-%s%d" % (i, m[0], m[1]) for i, m in enumerate(motifs)]
+    r = rng.random()
+    if r < 0.12:
+        names = rng.sample(range(T), T)              # integer labels: 0 is a name like any other
+    elif r < 0.17:
+        names[rng.randrange(T)] = ""                 # so is the empty string
     return {"flavour": rng.choice(["fast", "fast", "network"]), "motifs": [list(m) for m in motifs],
-            "names": ["t%d-%s%d" % (i, m[0], m[1]) for i, m in enumerate(motifs)],
+            "names": names,
             "path": rng.choice(["direct", "main-enum", "main-str", "factory"]), "use_library": rng.random() < 0.7}
 
 
@@ -163,11 +170,16 @@ def make_custom_config(rng, force=None):
         motifs[rng.randrange(M)] = rng.choice(special)
     sizes, indices = [], []
     for orbits, _, _ in motifs:
-        idx = []
-        for s in orbits:
-            idx.append(len(sizes))
-            sizes.append(s)
-        indices.append(idx)
+        # the joint-degree columns of a motif's orbits need not be listed in ascending order: the index list says which column
+        # feeds which builder slot (in 30% of the multi-orbit motifs the columns are allocated in another order than the slots)
+        alloc = list(range(len(orbits)))
+        if len(orbits) > 1 and rng.random() < 0.3:
+            rng.shuffle(alloc)
+        col = {}
+        for o in alloc:
+            col[o] = len(sizes)
+            sizes.append(orbits[o])
+        indices.append([col[o] for o in range(len(orbits))])
     return {"flavour": "custom", "motifs": [[list(o), s, n] for o, s, n in motifs], "sizes": sizes, "indices": indices,
             "path": rng.choice(["direct", "main-enum", "main-str", "factory"]), "tuple_result": rng.random() < 0.6,
             "use_library": rng.random() < 0.5}
@@ -176,10 +188,8 @@ def make_custom_config(rng, force=None):
 def columns_of(cfg):
     """[(column size, motif index)] per joint-degree column"""
     if cfg["flavour"] == "custom":
-        out = []
-        for j, (orbits, _, _) in enumerate(cfg["motifs"]):
-            out += [(s, j) for s in orbits]
-        return out
+        owner = {c: j for j, idx in enumerate(cfg["indices"]) for c in idx}
+        return [(s, owner[c]) for c, s in enumerate(cfg["sizes"])]
     return [(m[1], k) for k, m in enumerate(cfg["motifs"])]
 
 
@@ -269,7 +279,7 @@ def upair(e):
 
 
 def is_vertex(x, N):
-    return isinstance(x, int) and not isinstance(x, bool) and 0 <= x < N
+    return isinstance(x, numbers.Integral) and not isinstance(x, bool) and 0 <= x < N
 
 
 # --------------------------------------------------------------------------------------------
@@ -290,6 +300,10 @@ def oracle_conservation(res, cfg, jds, jds_before, rec, out, tap, ctx):
         res.violate("library-motif-generator-returned-wrong-edges", first=rec.alarms[0], ctx=ctx); return False
     for j in range(nm):
         mycols = [(c, s) for c, (s, jj) in enumerate(cols) if jj == j]
+        if custom:
+            mycols = [(c, cols[c][0]) for c in cfg["indices"][j]]        # builder slots follow the index list, not the column order
+            if cfg["indices"][j] != sorted(cfg["indices"][j]):
+                res.count("motifs_with_non_ascending_orbit_columns")
         size_tot = sum(s for _, s in mycols)
         want_calls = sum(jds_before[v][mycols[0][0]] for v in range(N)) // mycols[0][1]
         res.count("motif_instances", len(by[j]))
